@@ -1,6 +1,7 @@
 import Gleece.Properties.C10
 import Gleece.Properties.Link
 import Gleece.Properties.C10Complete
+import Gleece.Properties.C10Common
 #print axioms Gleece.Validate.returns_sound
 #print axioms Gleece.Validate.linkValidate_nil_parts
 #print axioms Gleece.Validate.params_referenced
@@ -32,3 +33,6 @@ import Gleece.Properties.C10Complete
 #print axioms Gleece.Validate.validateParams_complete
 #print axioms Gleece.Validate.validateReturns_complete
 #print axioms Gleece.Validate.receiver_accepts
+#print axioms Gleece.Validate.commonValidate_complete
+#print axioms Gleece.Validate.annotsWellFormedB_sound
+#print axioms Gleece.Validate.well_formed_route_accepted
